@@ -1,4 +1,4 @@
-\* quick: reference machine only, 2 objects x offsets 0..1 x sizes 1/2 x 2 values (+ Top, flagged value), all histories of <= 3 operations from the empty list
+\* quick: reference machine only, 2 objects x offsets 0..1 x sizes 1/2 x 2 values, all histories of <= 3 operations from the empty list
 CONSTANTS
   NObj = 2
   OffHi = 1
@@ -6,7 +6,7 @@ CONSTANTS
   NVals = 2
   Depth = 3
   PtrVal = FALSE
-  TopVal = TRUE
+  TopVal = FALSE
   Variants = FALSE
   TwoLists = FALSE
   Presets = FALSE
